@@ -14,7 +14,7 @@ F44 == Fills(L)
 F34 == Fills((3 * L) \div 4)
 FillsOf(m) == IF m = <<4,4>> THEN F44 ELSE F34
 Pal(ch) == << <<>>, <<[n |-> <<"C">>, o |-> 4, ch |-> ch, vel |-> 64]>>, <<[n |-> <<"E","b">>, o |-> 3, ch |-> ch, vel |-> 100], [n |-> <<"G">>, o |-> 4, ch |-> ch, vel |-> 1]>>,
-            <<[n |-> <<"F","#">>, o |-> 5, ch |-> ch, vel |-> 127]>>, <<>>, <<[n |-> <<"A">>, o |-> 2, ch |-> ch, vel |-> 90], [n |-> <<"C","#">>, o |-> 4, ch |-> ch, vel |-> 64], [n |-> <<"B">>, o |-> 5, ch |-> ch, vel |-> 30]>> >>
+            <<[n |-> <<"F","#">>, o |-> 5, ch |-> ch, vel |-> 127]>>, <<>>, <<[n |-> <<"A">>, o |-> 2, ch |-> ch, vel |-> 90], [n |-> <<"C","#">>, o |-> 4, ch |-> ch, vel |-> 64], [n |-> <<"B">>, o |-> 5, ch |-> ch, vel |-> 0]>> >>
 EntryOf(vi, ch, k, pat, withBpm) == LET c == Pal(ch)[((k * pat + pat) % 6) + 1] IN
     [v |-> VA[vi], t |-> Ticks(VA[vi]), rest |-> c = <<>>, notes |-> c, bpm |-> IF withBpm /\ c # <<>> /\ k = 2 THEN 90 ELSE 0]
 BarOf(m, f, ch, pat, withBpm) == [key |-> <<"C">>, meter |-> m, entries |-> [k \in 1..Len(f) |-> EntryOf(f[k], ch, k, pat, withBpm)]]
